@@ -73,6 +73,16 @@ pub fn run_cases(cases: &[PerftCase]) -> Result<u64, String> {
 /// Structural self-checks of the model that do not need numbers: mirror involution, FEN round trip,
 /// SAN writer/recogniser agreement on every legal move of a few positions.
 pub fn structural() -> Result<(), String> {
+    for f in crate::gen::CORPUS {
+        match Pos::from_fen(f) {
+            Some(p) => {
+                if let Some(e) = p.strict_validity_error() {
+                    return Err(format!("corpus entry {} is not a valid position: {}", f, e));
+                }
+            }
+            None => return Err(format!("corpus entry {} is not a standard FEN", f)),
+        }
+    }
     for c in QUICK {
         let p = Pos::from_fen(c.fen).unwrap();
         if Pos::from_fen(&p.fen()).as_ref() != Some(&p) {
